@@ -99,7 +99,8 @@ def run_unit(unit, out, tier, seed):
     # quick: a seeded sample; always keep the hostile shapes that involve modal universals / identity
     if tier == 'quick':
         keep = [c for c in allcases if c[0].startswith('hostile:two-nec') or c[0].startswith('hostile:serial')
-                or c[0].startswith('hostile:poss-under') or c[0].startswith('hostile:identity:multi')]
+                or c[0].startswith('hostile:poss-under') or c[0].startswith('hostile:identity:multi')
+                or ':refute:' in c[0] or c[0].startswith('hostile:fork-under-box:flip')]
         rest = [c for c in allcases if c not in keep]
         allcases = keep + rest[:NARGS[tier]]
     mine = allcases[unit['part']::unit['parts']]
